@@ -722,21 +722,7 @@ def derivation_obligations(repo):
             "_DEFAULT_TYPES": "dict(default_types)"}
     for k, v in want.items():
         rec("validators:create/O/class-attr:%s" % k, body.get(k) == v, "class attribute %s = %s (expected %s)" % (k, body.get(k), v))
-    # extend(): the four behaviour parameters of the parent are handed to create()
-    ex = repo.units["validators:extend"].node
-    calls = [n for n in _ast.walk(ex) if isinstance(n, _ast.Call) and _ast.unparse(n.func) == "create"]
-    kws = {k.arg: _ast.unparse(k.value) for c in calls for k in c.keywords}
-    table_local = kws.get("validators")
-    for k, v in {"meta_schema": "validator.META_SCHEMA", "type_checker": "type_checker", "id_of": "validator.ID_OF", "version": "version"}.items():
-        rec("validators:extend/F/passes:%s" % k, len(calls) == 1 and kws.get(k) == v, "extend calls create(%s=%s) (expected %s)" % (k, kws.get(k), v))
-    src = _ast.unparse(ex)
-    # the keyword table handed on is a local copy of the parent's table, updated with the overrides (any local name)
-    ok_table = bool(table_local) and table_local.isidentifier() and ("%s = dict(validator.VALIDATORS)" % table_local) in src and \
-        ("%s.update(validators)" % table_local) in src
-    rec("validators:extend/F/passes:validators", len(calls) == 1 and ok_table,
-        "extend calls create(validators=<a local copy of validator.VALIDATORS updated with the overrides>) (found %s)" % table_local)
-    rec("validators:extend/F/default-type-checker", "if type_checker is None:\n        type_checker = validator.TYPE_CHECKER" in src,
-        "without type_checker the parent's is carried along")
+    # extend(): proved by symbolic execution (contracts/tasks_derive.py: derive:extend)
     # the class's methods look ids up through the closure variable id_of
     init = _ast.unparse(repo.units["validators:create.Validator.__init__"].node)
     rec("validators:create.Validator.__init__/F/id_of", "RefResolver.from_schema(schema, id_of=id_of)" in init, "a validator's own resolver is built with the class's id_of")
@@ -744,25 +730,12 @@ def derivation_obligations(repo):
     rec("validators:create.Validator.iter_errors/F/id_of", "scope = id_of(_schema)" in it, "iter_errors takes the scope of a subschema from the class's id_of")
     cs = _ast.unparse(repo.units["validators:create.Validator.check_schema"].node)
     rec("validators:create.Validator.check_schema/F/own-class", "cls(cls.META_SCHEMA).iter_errors(schema)" in cs, "check_schema validates with the class itself against its own META_SCHEMA")
-    # TypeChecker derivations return new objects
-    for m, want_src in (("redefine", "return self.redefine_many({type: fn})"), ("redefine_many", "return attr.evolve(self, type_checkers=self._type_checkers.update(definitions))"),
-                        ("remove", "return attr.evolve(self, type_checkers=checkers)")):
-        u = _ast.unparse(repo.units["_types:TypeChecker.%s" % m].node)
-        rec("_types:TypeChecker.%s/F/new-object" % m, want_src in u, "%s returns a new checker built from a persistent-map update (attr.evolve / pmap, assumed)" % m)
+    # TypeChecker derivations: proved by symbolic execution (contracts/tasks_types.py)
     tc = [n for n in _ast.walk(repo.trees["_types"]) if isinstance(n, _ast.ClassDef) and n.name == "TypeChecker"]
     fields = [t.id for c in tc for st in c.body if isinstance(st, _ast.Assign) for t in st.targets if isinstance(t, _ast.Name)]
     frozen = any("frozen=True" in _ast.unparse(d) for c in tc for d in c.decorator_list)
     rec("_types:TypeChecker/O/fields", fields == ["_type_checkers"] and frozen, "TypeChecker is frozen and its only state is the persistent map (fields %s)" % fields)
-    # FormatChecker instances own a copy of the registry
-    from pyvc import frames
-    ia = frames.init_assignments(repo, "_format:FormatChecker.__init__")
-    fi = repo.units["_format:FormatChecker.__init__"].node
-    both = any(isinstance(n, _ast.If) and any(isinstance(b, _ast.Assign) and "self.checkers" in _ast.unparse(b.targets[0]) for b in n.body)
-               and any(isinstance(b, _ast.Assign) and "self.checkers" in _ast.unparse(b.targets[0]) for b in n.orelse) for n in fi.body)
-    rec("_format:FormatChecker.__init__/O/checkers", both and ia and all(a == "checkers" and c == "fresh" for a, v, c, ln in ia),
-        "every construction path gives the instance its own copy of the registry (%s)" % [(a, c) for a, v, c, ln in ia])
-    ck = _ast.unparse(repo.units["_format:FormatChecker.checks._checks"].node)
-    rec("_format:FormatChecker.checks/F/instance-registry", "self.checkers[format] = (func, raises)" in ck, "checks registers in the receiver's own registry")
+    # FormatChecker.__init__ / checks: proved by symbolic execution (contracts/tasks_derive.py: derive:fc_init, derive:fc_checks)
     dc = _ast.unparse(repo.trees["_format"])
     rec("_format:draft-checkers/O/separate", all(("draft%d_format_checker = FormatChecker()" % d) in dc for d in (3, 4, 6, 7)), "the four draft checkers are separate instances")
     return recs
@@ -772,17 +745,18 @@ class C16(Spec):
     pid = "C16"
     level = "proof"
     design_ref = "DESIGN.md section 8 C16"
-    trusted = ["attr.evolve returns a new object holding the given map and leaves its argument unchanged; pyrsistent pmap values are persistent: update(d) is the overlay of d, remove(k) raises KeyError for an absent key and otherwise drops exactly k (assumed contracts of the dependencies, contracts/tasks_types.py)",
+    trusted = ["built-in dict: dict(d) / d.copy() allocate a new dict with the same content, d.update(e) overlays e on d, d[k] = v changes exactly d (assumed; contracts/tasks_derive.py)", "attr.evolve returns a new object holding the given map and leaves its argument unchanged; pyrsistent pmap values are persistent: update(d) is the overlay of d, remove(k) raises KeyError for an absent key and otherwise drops exactly k (assumed contracts of the dependencies, contracts/tasks_types.py)",
                "class creation inside create() is modelled by its four behaviour parameters (keyword table copy, type checker, id_of closure and ID_OF, metaschema copy); the deprecation metaclass / DEFAULT_TYPES property is not modelled",
                "meta-lemma (paper): iter_errors' contract is parametric in exactly those four parameters, so equal parameters give equal behaviour and an override changes only the dispatch case of the overridden keyword"]
     assumptions = ["frame / ownership obligations are syntactic (pyvc/frames.py) and conservative"]
-    explanation = "TypeChecker: is_type(x, t) is UndefinedTypeCheck iff t is not in the checker's map and otherwise what the mapped function says; redefine / redefine_many return a new checker whose map is the receiver's overlaid with the definitions; remove returns a new checker without exactly the listed names (loop invariant, closed form by an induction lemma) and raises UndefinedTypeCheck iff a name is absent when its turn comes. Write frames: no derivation operation mutates a pre-existing checker, class or validator (only fresh objects, the object under construction, the two registries in validates, the receiver's own registry in checks). Ownership: create stores copies, FormatChecker instances copy the class registry on every construction path, the draft checkers are separate instances, TypeChecker is frozen over a persistent map. Hand-over: extend passes its parent's table copy, type checker, id_of and metaschema to create; the class's methods use the closure id_of; check_schema uses the class itself."
+    explanation = "TypeChecker: is_type(x, t) is UndefinedTypeCheck iff t is not in the checker's map and otherwise what the mapped function says; redefine / redefine_many return a new checker whose map is the receiver's overlaid with the definitions; remove returns a new checker without exactly the listed names (loop invariant, closed form by an induction lemma) and raises UndefinedTypeCheck iff a name is absent when its turn comes. Write frames: no derivation operation mutates a pre-existing checker, class or validator (only fresh objects, the object under construction, the two registries in validates, the receiver's own registry in checks). extend (symbolic execution over a dict-object model): create is called once with the parent's metaschema and ID_OF, the given version, the given or else the parent's type checker and a NEW table == parent's table overlaid with the overrides, the parent's table object unchanged. FormatChecker.__init__: the instance owns a new dict equal to the class registry / its restriction to the listed names, class registry unchanged; checks / cls_checks: exactly the receiver's own registry gains format -> (func, raises), all other registries unchanged. Ownership (AST): create stores copies, the draft checkers are separate instances, TypeChecker is frozen over a persistent map; the class's methods use the closure id_of; check_schema uses the class itself."
 
     def tasks(self, root, tier):
         from contracts import tasks_registry
-        from contracts import tasks_types
+        from contracts import tasks_types, tasks_derive
         return [t for t in tasks_registry.registry_tasks(root, _tmo(tier)) if t.which == "validates"] + \
-            tasks_core.core_tasks(root, _tmo(tier), drafts_=(7,), which=("is_type",)) + tasks_types.type_checker_tasks(root, _tmo(tier))
+            tasks_core.core_tasks(root, _tmo(tier), drafts_=(7,), which=("is_type",)) + tasks_types.type_checker_tasks(root, _tmo(tier)) + \
+            tasks_derive.derive_tasks(root, _tmo(tier))
 
     def select(self, ob, r):
         return True
